@@ -30,6 +30,9 @@ structure GenArgs where
   /-- every character the template is handed (message, id, down revisions, labels, dependencies) can be written in the
       configured `output_encoding` (`str.encode` succeeds; always so with the default utf-8 and no lone surrogate) -/
   encodable : Bool := true
+  /-- a file with the name the template gives this call (`_rev_path`) is already in the version path: the
+      name joins the id and the message slug (or leaves the id out), so two different revisions can map to one name -/
+  fileTaken : Bool := false
   deriving Repr, Inhabited
 
 def hasDup : List (Option Id) → Bool
@@ -76,16 +79,17 @@ def labelsFree (taken : List String) : List String → Bool
 
 /-- the four identifier values handed to the template.  A revision id that is already a key of
     the map (a revision id or a branch label; since the fix of F16) and a taken branch label
-    (since the fix of F14) are refused here, in this order, BEFORE anything is written; so is a text
-    the configured `output_encoding` cannot represent. -/
+    (since the fix of F14) are refused here, in this order, BEFORE anything is written; so are a file name
+    that is already taken (since the fix of F17) and a text the configured `output_encoding` cannot represent. -/
 def generateRevision (m : LMap) (a : GenArgs) : Except Err Rev :=
   match resolveArgs m a with
   | .error e => .error e
   | .ok (down, deps) =>
     if a.revid ∈ keysOf m then .error .commandError                   -- "Revision identifier ... is already present in the revision history"
     else if labelsFree (a.revid :: keysOf m) a.labels then
+      if a.fileTaken then .error .commandError                        -- "Revision file ... already exists" (since the fix of F17)
       -- `util.template_to_file`: the text is rendered and encoded BEFORE the destination is opened
-      if a.encodable then .ok { id := a.revid, down := down, deps := deps, labels := a.labels }
+      else if a.encodable then .ok { id := a.revid, down := down, deps := deps, labels := a.labels }
       else .error .commandError                                       -- "Template rendering failed."
     else .error .commandError                                         -- "Branch name ... already used by revision ..."
 
